@@ -63,10 +63,11 @@ PROPS['C16']['harnesses'] = PROPS['C16']['harnesses'] + RX_H
 
 _MT_H = [A(src='harness/c05_slab_mt.cpp', san='asan', sched=True), A(src='harness/c05_slab_mt.cpp', san='tsan', sched=True)]
 SLAB_H = [A(src='harness/c01_slab.cpp', san='asan', opt='-O2', tag='-p%d' % i, flags=['-DSLAB_PART=%d' % i]) for i in range(4)]
+HUGE_H = [A(src='harness/c03_slab_huge.cpp', san='asan', opt='-O2')]
 SLAB_B = A(quick='policy configs: tiny (page 256, slab=sb 4 KiB, 8 classes; aligned map / one-argument map with bases at 3 offsets / no poison hooks), split (slab 2 KiB < sb 4 KiB, aligned and one-argument map), odd (slab 7 pages, sb 8 pages, largest class 2 pages), defaults (4 KiB/256 KiB/13 classes, both map flavours). (a) alloc/free/deallocate/realloc/realloc(null) histories to FIXPOINT (any length) over small size alphabets with <=2..5 live blocks; (b) all histories to depth 5 (4 odd, 3 defaults) over the full 5-7 size alphabets with <=3..4 live blocks; (c) size sweep: every request 0..largest class+2 pages and every size within +-2 of a page multiple up to 3 superblocks+1 page from 3 base states, every realloc pair over the class/page boundaries',
            thorough='same with more fixpoint alphabets at 3 live blocks, depth 7 (6 odd, 5 defaults), sweeps from all base states')
 for pid, extra in (('C01', ''), ('C02', ''), ('C03', '')):
-    PROPS[pid] = A(level='model_checking', technique='explicit-state model checking of the real implementation (BFS over operation histories with state hashing, exhaustive size sweeps) plus stateless model checking of interleaved histories (preemption-bounded schedule enumeration under a serialising scheduler, ThreadSanitizer over the same schedules)', harnesses=SLAB_H + _MT_H, budget=A(quick=170, thorough=1700), bounds=(A(quick=SLAB_B['quick'] + '; (d) interleaved histories: 4 two/three-thread scripts on one slab under the serialising scheduler, all schedules with <=2 preemptions (H11: 3), ASan+oracles and ThreadSanitizer', thorough=SLAB_B['thorough'] + '; scheduler scripts with <=3 (H11: 4) preemptions') if pid == 'C01' else A(quick=SLAB_B['quick'] + '; (d) the content/footprint (C02) resp. page-accounting/region (C03) oracles over 2-3 scheduler scripts with <=2 preemptions, ASan and ThreadSanitizer', thorough=SLAB_B['thorough'] + '; scheduler scripts with <=3 preemptions')), assumptions=TRUST + ['ASan manual poisoning is conservative at 8-byte granularity'])
+    PROPS[pid] = A(level='model_checking', technique='explicit-state model checking of the real implementation (BFS over operation histories with state hashing, exhaustive size sweeps) plus stateless model checking of interleaved histories (preemption-bounded schedule enumeration under a serialising scheduler, ThreadSanitizer over the same schedules)', harnesses=SLAB_H + _MT_H + HUGE_H, budget=A(quick=170, thorough=1700), bounds=(A(quick=SLAB_B['quick'] + '; (d) interleaved histories: 4 two/three-thread scripts on one slab under the serialising scheduler, all schedules with <=2 preemptions (H11: 3), ASan+oracles and ThreadSanitizer', thorough=SLAB_B['thorough'] + '; scheduler scripts with <=3 (H11: 4) preemptions') if pid == 'C01' else A(quick=SLAB_B['quick'] + '; (d) the content/footprint (C02) resp. page-accounting/region (C03) oracles over 2-3 scheduler scripts with <=2 preemptions, ASan and ThreadSanitizer', thorough=SLAB_B['thorough'] + '; scheduler scripts with <=3 preemptions')), assumptions=TRUST + ['ASan manual poisoning is conservative at 8-byte granularity'])
 PROPS['C04'] = A(level='fault_enumeration', harnesses=SLAB_H, budget=A(quick=170, thorough=1700),
     bounds=A(quick='the C01 explorations with one more environment answer: at every op that can call Policy::map, the call is failed (<=1 failure per history), either the first or the second map() call of the operation; every reachable state within the bounds is a failure point; plus the same with the policy freeing a live block of the pool from inside the failing map() call (what a concurrent free during the unlocked map() amounts to)', thorough='<=2 failures per history'),
     rule='cases = (history, failed map call) pairs enumerated by BFS over alloc/realloc ops with a failing-map variant; distinct = distinct canonical states reached; non-trivial = the failing variant actually reached map()',
